@@ -247,6 +247,9 @@ type PBlock struct {
 }
 
 func quanta(v float64, q int) (int64, error) {
+	if q == 0 {
+		return 0, nil // raw mode: only the block structure is wanted
+	}
 	x := v * float64(q)
 	if x != math.Trunc(x) || math.Abs(x) > 1<<40 {
 		return 0, fmt.Errorf("weight %v is not a multiple of 1/%d", v, q)
